@@ -9,6 +9,9 @@ stdin : JSON list of jobs
     "cwd": "w/proj"                           process cwd for the compile (relative to the root)
     "target": "main.jmc" | "{ROOT}/w/proj/main.jmc" | ...    the string given to PyJMC
     "globs": ["w/proj/sub", ...]}             directories whose glob("**/*.jmc") order is reported
+   or {"seq": [job, job, ...]}                 strengthening round 2: successive states of ONE project folder (same temp root), each
+                                              compiled in turn in this process; the folder is edited in place between the compiles
+                                              (files added / deleted / rewritten, untouched files keep inode and mtime) -> {"seq": [result, ...]}
 stdout: JSON list of
    {"ok": true, "files": {path: text}, "opens": [...], "globs": {dir: [files]}}
    {"ok": false, "exc": class name, "jmc": bool, "msg": str, "opens": [...], "globs": {...}}
@@ -114,6 +117,73 @@ def run_job(job, PyJMC, jmc_excs):
     return res
 
 
+def sync_tree(root, job, prev_files):
+    """make the project folder below `root` look like job["files"] + job["dirs"]: files that are gone are deleted, files whose text
+    changed (or new ones) are written, unchanged files are NOT touched (same inode, same mtime - as an editor leaves them),
+    directories that hold nothing any more and are not listed are removed.  Returns {relpath: text} now on disk."""
+    want = {relp: text.replace("{ROOT}", root) for relp, text in job["files"].items()}
+    for relp in prev_files:
+        if relp not in want:
+            os.remove(os.path.join(root, relp))
+    for d in job.get("dirs", []):
+        os.makedirs(os.path.join(root, d), exist_ok=True)
+    for relp, text in want.items():
+        if prev_files.get(relp) != text:
+            full = os.path.join(root, relp)
+            os.makedirs(os.path.dirname(full), exist_ok=True)
+            with _real_open(full, "w", encoding="utf-8") as f:
+                f.write(text)
+    keep = set()
+    for relp in list(want) + [d + "/x" for d in job.get("dirs", [])] + [job["cwd"] + "/x"]:
+        d = os.path.dirname(relp)
+        while d:
+            keep.add(d)
+            d = os.path.dirname(d)
+    for cur, dirs, files in os.walk(root, topdown=False):
+        r = os.path.relpath(cur, root)
+        if r != "." and r not in keep and not os.listdir(cur):
+            os.rmdir(cur)
+    return want
+
+
+def run_seq(seq, PyJMC, jmc_excs):
+    """strengthening round 2: a SEQUENCE of states of one project folder (same root, same paths) compiled one after the other in this
+    process - what `jmc compile` / autocompile does while the user edits, adds, deletes and moves files"""
+    root = os.path.realpath(tempfile.mkdtemp(prefix="c17s_"))
+    old_cwd = os.getcwd()
+    out, prev = [], {}
+    try:
+        for job in seq:
+            res = {}
+            os.chdir(root)
+            prev = sync_tree(root, job, prev)
+            globs = {}
+            for d in job.get("globs", []):
+                dd = Path(root) / d
+                globs[d] = [rel(root, str(q)) for q in dd.glob("**/*.jmc")] if dd.is_dir() else None
+            os.chdir(os.path.join(root, job["cwd"]))
+            del OPENS[:]
+            signal.alarm(int(job.get("timeout", 20)))
+            try:
+                p = PyJMC("ns", "d", "48", job["target"].replace("{ROOT}", root))
+                res = {"ok": True, "files": {k.as_posix(): v for k, v in p.files.items()}}
+            except _Timeout:
+                res = {"ok": False, "exc": "Timeout", "jmc": False, "msg": ""}
+            except BaseException as e:  # noqa
+                signal.alarm(0)
+                res = {"ok": False, "exc": type(e).__name__, "jmc": isinstance(e, jmc_excs),
+                       "msg": str(e)[:1500].replace(root, "{ROOT}"), "frame": None}
+            finally:
+                signal.alarm(0)
+            res["opens"] = [rel(root, p) for p in OPENS]
+            res["globs"] = globs
+            out.append(res)
+    finally:
+        os.chdir(old_cwd)
+        shutil.rmtree(root, ignore_errors=True)
+    return {"seq": out}
+
+
 def main():
     import logging
     logging.disable(logging.CRITICAL)
@@ -125,7 +195,7 @@ def main():
     jobs = json.load(sys.stdin)
     real_stdout = sys.stdout
     sys.stdout = _real_open(os.devnull, "w")
-    out = [run_job(j, PyJMC, jmc_excs) for j in jobs]
+    out = [run_seq(j["seq"], PyJMC, jmc_excs) if "seq" in j else run_job(j, PyJMC, jmc_excs) for j in jobs]
     sys.stdout = real_stdout
     json.dump(out, sys.stdout)
 
